@@ -1529,6 +1529,85 @@ def rule_r14(prog, res):
     res.floor('R14', 'limit stores in HttpBase.__init__', n, 2)
 
 
+def rule_r15(prog, res):
+    res.rule('R15', 'rebuilding the request URL never indexes a WSGI variable '
+             'that may be empty outside the branch for a non-conforming '
+             'SCRIPT_NAME; every sequence kind of a multi-valued header is '
+             'expanded into string pairs')
+    m = prog.module('spyne.server.wsgi')
+    f = m.functions.get('_reconstruct_url')
+    g = m.functions.get('_gen_http_headers')
+    if f is None or g is None:
+        raise AnalysisError('_reconstruct_url / _gen_http_headers',
+                            'not found')
+
+    def origin(e, fn):
+        """text of e with one level of local aliases replaced"""
+        if isinstance(e, ast.Name):
+            vs = [a.value for a in walk_no_defs(fn.node)
+                  if isinstance(a, ast.Assign) and any(
+                      isinstance(t, ast.Name) and t.id == e.id
+                      for t in a.targets)]
+            if len(vs) == 1:
+                return unparse(vs[0])
+        return unparse(e)
+    n = 0
+    for sub in walk_no_defs(f.node):
+        if not (isinstance(sub, ast.Subscript) and isinstance(
+                sub.slice, ast.Constant) and isinstance(
+                sub.slice.value, int) and isinstance(sub.ctx, ast.Load)):
+            continue
+        src = origin(sub.value, f)
+        if 'environ.get(' not in src and 'environ[' not in src:
+            continue
+        key = 'PATH_INFO' if 'PATH_INFO' in src else (
+            'SCRIPT_NAME' if 'SCRIPT_NAME' in src else src[:30])
+        n += 1
+        safe = False
+        for e, pol in flatten_guards(guards_at(sub, stop=f.node)):
+            if not pol:
+                continue
+            if isinstance(e, ast.Compare) and isinstance(
+                    e.ops[0], ast.Eq) and isinstance(
+                    e.comparators[0], ast.Constant) and \
+                    e.comparators[0].value == '/' and \
+                    'SCRIPT_NAME' in origin(e.left, f):
+                safe = True         # outside the WSGI contract altogether
+            if origin(e, f) == src or unparse(e) == unparse(sub.value):
+                safe = True         # tested for being non-empty
+        where = '%s:%d' % (m.relpath, sub.lineno)
+        res.ob('R15', where, '_reconstruct_url indexes %s[%d] %s' % (
+            key, sub.slice.value, 'only for SCRIPT_NAME == "/" or a '
+            'non-empty value' if safe else 'for every request'),
+            'ok' if safe else 'VIOLATED')
+        if not safe:
+            res.finding('R15', '_reconstruct_url|index-of-empty|%s' % key,
+                        where, '%s is evaluated for every request: an empty '
+                        'or absent %s (a mount point requested without a '
+                        'trailing path) raises IndexError before '
+                        'start_response is called' % (unparse(sub)[:60], key))
+    res.floor('R15', 'indexed WSGI variables in _reconstruct_url', n, 1)
+    k = 0
+    for c in calls_in(g.node):
+        if call_name(c) != 'isinstance' or len(c.args) != 2:
+            continue
+        k += 1
+        kinds = {unparse(x) for x in (c.args[1].elts if isinstance(
+            c.args[1], ast.Tuple) else [c.args[1]])}
+        ok = {'list', 'tuple'} <= kinds
+        where = '%s:%d' % (m.relpath, c.lineno)
+        res.ob('R15', where, '_gen_http_headers expands values of kind %s' %
+               sorted(kinds), 'ok' if ok else 'VIOLATED')
+        if not ok:
+            res.finding('R15', '_gen_http_headers|sequence-kind-not-expanded',
+                        where, 'only %s values are expanded into one pair per '
+                        'item: a %s of values is handed to start_response as '
+                        'the header value, which is not a string' % (
+                            sorted(kinds), sorted({'list', 'tuple'} -
+                                                  kinds)[0]))
+    res.floor('R15', 'sequence tests in _gen_http_headers', k, 1)
+
+
 def run(prog, res, tier):
     res.run_rule(rule_r1, prog, res)
     res.run_rule(rule_r2, prog, res)
@@ -1544,11 +1623,23 @@ def run(prog, res, tier):
     res.run_rule(rule_r12, prog, res)
     res.run_rule(rule_r13, prog, res)
     res.run_rule(rule_r14, prog, res)
+    res.run_rule(rule_r15, prog, res)
 
 
 _W = 'spyne/server/wsgi.py'
 
 MUTANTS = [
+    Mutant('path-info-indexed-first', 'R15', 'fire', 'spyne/server/wsgi.py',
+           in_func('_reconstruct_url',
+                   "        if (quote(environ.get('SCRIPT_NAME', '')) == '/' "
+                   "and\n            quote(environ.get('PATH_INFO', ''))[0] "
+                   "== '/'):",
+                   "        if (quote(environ.get('PATH_INFO', ''))[0] == '/' "
+                   "and\n            quote(environ.get('SCRIPT_NAME', '')) "
+                   "== '/'):"), 'index-of-empty'),
+    Mutant('header-tuples-not-expanded', 'R15', 'fire', 'spyne/server/wsgi.py',
+           in_func('_gen_http_headers', "isinstance(v, (list, tuple))",
+                   "isinstance(v, list)"), 'sequence-kind-not-expanded'),
     Mutant('zero-limit-taken-for-unset', 'R14', 'fire', 'spyne/server/http.py',
            in_func('HttpBase.__init__',
                    "self.max_content_length = max_content_length\n",
